@@ -103,6 +103,31 @@ class Ctx:
             self.call_sites += sum(1 for e in it.events if e['tag'] in ('call', 'extcall', 'extmethod'))
         return self._entries[key]
 
+    def pipeline(self):
+        """One interpreter run of the analysis pipeline on a symbolic trajectory:
+        Transitions.from_trajectory(...) -> Jumps(transitions) . Returns the Interp with .transitions / .jumps / .state"""
+        if getattr(self, '_pipe', None) is None:
+            from .interp import Frame, State
+            it = make_interp(self.p)
+            res, st = it.run_entry('gemdat.transitions.Transitions.from_trajectory')
+            it.transitions = res
+            fi = self.p.fn('gemdat.jumps.Jumps.__init__')
+            fr = Frame(None, fi.module, st)
+            it.jumps = it.construct('gemdat.jumps.Jumps', [res], {}, fr, st, None)
+            it.state = st
+            it.result, it.final_state = it.jumps, st
+            self._pipe = it
+            self.analysed |= it.evaluated
+        return self._pipe
+
+    def method_on(self, it, obj, name, **kwargs):
+        """Evaluate obj.name(**kwargs) in the interpreter/heap of a previous run."""
+        ci = self.p.classes[obj.cls]
+        fi = self.p.find_method(ci, name)
+        r = it.call_function(fi, [], kwargs, it.state, self_av=obj, node=None)
+        self.analysed |= it.evaluated
+        return r
+
     def package_scan(self, include_plots=True):
         """Interpret every top-level function / method of the package once (for package-wide effect rules)."""
         if getattr(self, '_scan', None) is None:
